@@ -2,6 +2,7 @@
 //! `check <property> [--tier quick|thorough] [--replay <file>]`
 mod c01;
 mod c02;
+mod c03;
 mod c04;
 mod c05;
 mod c06;
@@ -40,6 +41,7 @@ fn lookup(id: &str) -> Option<(RunFn, CheckFn)> {
     Some(match id {
         "C01" => (c01::run, c01::check_record),
         "C02" => (c02::run, c02::check_record),
+        "C03" => (c03::run, c03::check_record),
         "C04" => (c04::run, c04::check_record),
         "C05" => (c05::run, c05::check_record),
         "C06" => (c06::run, c06::check_record),
